@@ -3,7 +3,13 @@
 P="$1"; shift
 cd /repo || exit 2
 if [ -n "$(git status --porcelain)" ]; then echo "repo dirty"; exit 2; fi
-git apply "$P" || { echo "patch does not apply"; exit 2; }
+if ! git apply "$P" 2>/dev/null; then
+  git apply --3way "$P" >/dev/null 2>&1
+  if git diff | grep -q '^[ +-]*<<<<<<<' || [ -z "$(git status --porcelain)" ]; then
+    echo "patch does not apply"; git checkout -q HEAD -- . ; git reset -q; exit 2
+  fi
+  git reset -q
+fi
 for prop in "$@"; do
   out=$(/verif/bin/h5sa -prop "$prop" -repo /repo -verif /verif -no-evidence 2>&1); rc=$?
   echo "--- $prop rc=$rc"; echo "$out" | grep -E "FINDING|CHECKER" | cut -c1-400
